@@ -1,7 +1,9 @@
 import Hs.Thm.C08
+#print axioms Hs.C08.C08_fragment_partial
 #print axioms Hs.C08.C08_skeleton_partial
 #print axioms Hs.C08.precedence
 #print axioms Hs.C08.grouping
 #print axioms Hs.C08.path_ends
+#print axioms Hs.C08.literal_exact
 #print axioms Hs.C08.p1_path_ends
 #print axioms Hs.C08.ex_literals
